@@ -24,7 +24,7 @@ UNITS = [
          bound="3 items, every ledger, every scope, every start"),
     dict(unit="K01.adjacent_scope", harness="k01_adjacent_scope", tags=["C19"], quick=True, complete=False,
          bound="2 states of 3 items, every pair of ledgers and scopes"),
-    dict(unit="K01.pick_winner", harness="k01_pick_winner", tags=["C07"], quick=True, complete=False,
+    dict(unit="K01.pick_winner", harness="k01_pick_winner", tags=["C07", "C03"], quick=True, complete=False,
          bound="2 states of 3 items, every pair of ledgers"),
     dict(unit="K01.save_conflicts", harness="k01_save_conflicts", tags=["C07", "C05"], quick=True, complete=False,
          bound="2 states of 3 items, every pair of ledgers, every winner index"),
@@ -45,7 +45,7 @@ UNITS = [
          features="autocomplete", bound="all ASCII strings of length 3"),
     dict(unit="K10.flag_line_beats_env", harness="k10_flag_line_beats_env", tags=["C18"], quick=True, complete=False, stubbing=True,
          bound="2 items from {-a, -b, word} with every ledger; std::env::var_os nondeterministic; flag with and without an absent value"),
-    dict(unit="K10.argument_line_beats_env", harness="k10_argument_line_beats_env", tags=["C18", "C02"], quick=True, complete=False, stubbing=True,
+    dict(unit="K10.argument_line_beats_env", harness="k10_argument_line_beats_env", tags=["C18", "C02", "C06"], quick=True, complete=False, stubbing=True,
          bound="2 items from {-a, -b, word} with every ledger; std::env::var_os nondeterministic"),
     dict(unit="K14.first_line_two_tokens", harness="k14_first_line_two_tokens", tags=["C12", "C04"], quick=False, complete=False,
          bound="two Text tokens over 2+2 ASCII bytes"),
@@ -122,10 +122,12 @@ def _run_one(repo, u, target, work, timeout_s):
             r.update(status="fail", failed_check=_slug(real[0]) if real else "assertion", output_tail=out[-3000:])
             # concrete playback (second pass)
             pcmd = ["cargo", "kani", "--target-dir", target, "--output-format=terse", "-Z", "concrete-playback",
-                    "--concrete-playback=print", "--harness", u["harness"]] + (["--features", feat] if feat else [])
+                    "--concrete-playback=print", "--harness", u["harness"]] + (["--features", feat] if feat else []) + (["-Z", "stubbing"] if u.get("stubbing") else [])
             try:
                 pp = subprocess.run(pcmd, cwd=repo, capture_output=True, text=True, env=env, timeout=timeout_s)
-                mm = re.search(r"```\s*\n(.*?)```", pp.stdout, re.S)
+                blocks = re.findall(r"```\s*\n(.*?)```", pp.stdout + pp.stderr, re.S)
+                blocks = [b for b in blocks if "Check for `cover`" not in b] or blocks
+                mm = re.match(r"(.*)", blocks[0], re.S) if blocks else None
                 if mm:
                     r["playback"] = mm.group(1)
                     vals = re.findall(r"//\s*(.+?)\s*\n\s*vec!\[([^\]]*)\]", mm.group(1))
@@ -175,14 +177,44 @@ def _slug(s):
     return re.sub(r"[^A-Za-z0-9]+", "_", s).strip("_")[:60]
 
 
+MODULE_OF = {"k01": "args_inner", "k02": "args", "k03": "arg", "k04": "args", "k05": "complete_shell", "k08": "escape",
+             "k09": "html", "k10": "params", "k12": "params", "k14": "buffer"}
+
+
 def replay(repo, rp, work):
-    """re-run the harness named in a replay file; print the concrete playback test when one exists"""
+    """Re-run the harness named in a replay file on the current tree; when the file carries Kani's concrete playback test,
+    execute that test natively against the real crate (`cargo kani playback`): the recorded inputs drive the real function."""
     us = [u for u in UNITS if u["harness"] == rp.get("harness")]
     if not us:
         print("unknown harness", rp.get("harness"))
         return 2
-    if rp.get("concrete_playback_test"):
-        print("concrete playback unit test produced by Kani for the failing run:\n" + rp["concrete_playback_test"])
+    u = us[0]
+    rc_native = None
+    test = rp.get("concrete_playback_test")
+    if test:
+        m = re.search(r"fn (kani_concrete_playback_\w+)", test)
+        mod = MODULE_OF.get(u["harness"][:3])
+        if m and mod:
+            tmp = os.path.join(work, "playback")
+            shutil.rmtree(tmp, ignore_errors=True)
+            shutil.copytree(os.path.join(VERIF, "kani"), os.path.join(tmp, "kani"))
+            with open(os.path.join(tmp, "kani", mod + ".rs"), "a") as f:
+                f.write("\n// concrete playback test produced by Kani for a failing run\n" + test + "\n")
+            env = dict(os.environ, PACAK_BPAF_VERIF_DIR=tmp, CARGO_NET_OFFLINE="true", CARGO_TARGET_DIR=os.path.join(VERIF, "out", "kani-target-playback"))
+            env.pop("RUSTFLAGS", None)
+            cmd = ["cargo", "kani", "playback", "-Z", "concrete-playback"] + (["--features", u["features"]] if u.get("features") else []) + ["--", m.group(1)]
+            print("replaying the recorded inputs natively: " + " ".join(cmd))
+            p = subprocess.run(cmd, cwd=repo, capture_output=True, text=True, env=env)
+            full = p.stdout + p.stderr
+            tail = "\n".join(l for l in full.split("\n") if re.search(r"^test |test result|panicked at|assertion|running \d+ test", l))[-1500:]
+            print(tail)
+            rc_native = p.returncode
+            if "test result: FAILED" in full or "panicked at" in full:
+                print("native replay of the concrete input: the harness assertion FAILS on the real code")
+            elif "test result: ok" in full:
+                print("native replay of the concrete input: passes (stubbed environment is not applied in playback)")
+            else:
+                print("native replay could not be executed (rc=%s)" % rc_native)
     res = run_units(repo, us, work, "thorough", jobs=1)
     for r in res:
         print("harness %s on the current tree: %s" % (r["harness"], r["status"]))
